@@ -24,6 +24,7 @@ RULES = {
     'C19.h': 'the version a resolving re-apply stores is old.version + 1 when the stored entry is not in conflict resolution (the stored '
              'version still only grows): the return table of Change::next_version, shared with C13.d',
     'C19.f': 'the conflict entry point calls the resolver only for VersionError; the resolver switches on metadata.consensus_strategy',
+    'C19.i': 'the store reads the entry it compares with and writes the new one in a single critical section of Database.map (otherwise a concurrent write is accepted against a stale entry and never reaches the Newer resolution)',
 }
 
 
